@@ -394,11 +394,11 @@ func runC10(c *Ctx) {
 				do(Op{"op": name, "v": j, "offs": []int{0, j - 1, j}, "stop": 1})
 			}
 			keep := 1 + rng.Intn(40)
-			for x.obj().Len() > keep {
+			for g := 0; x.obj().Len() > keep && g < n+8; g++ {
 				do(Op{"op": "pop", "offs": []int{0, x.obj().Len() - 2, x.obj().Len() - 1}, "stop": 1})
 			}
 			do(Op{"op": "pop"})
-			for x.obj().Len() > 0 {
+			for g := 0; x.obj().Len() > 0 && g < 64; g++ {
 				do(Op{"op": "pop"})
 			}
 			do(Op{"op": "pop"})
